@@ -76,6 +76,13 @@ def analyse_writers(ctx, f, roles):
                 continue
             leaves.remove(h0)
             keys = [key_path(l) for l in leaves]
+            if any(k is None for k in keys) and not ch and key_toggle_helper(f, roles, w, body, leaves):
+                # a helper private to the state's module that XORs a value handed in by its caller (`toggle_key(Some(k))`):
+                # what is XORed is decided where it is called -- every caller is a writer of the state type and is read
+                # with the helper inlined
+                ctx.ok("%s:private-key-toggler" % short(w), {"helper": short(w), "xors": [sym.show(l)[:80] for l in leaves],
+                                                                "callers": "methods of the state type only"})
+                continue
             if any(k is None for k in keys):
                 ctx.fail("%s:non-key-xor" % short(w), "%s XORs a value that is not a projection of a key constant into the hash: %s"
                          % (w, [sym.show(l)[:120] for l in leaves]), loc(body))
@@ -469,6 +476,28 @@ def closed_writer_set(ctx, f, roles):
             ctx.check(h == ("int", 0, "u64") and empty, "%s:zero-hash-empty-state" % short(k),
                       "%s does not start from (empty position, hash 0): %s" % (k, sym.show(r)[:300]), loc(b),
                       sample={"constructor": short(k), "hash": sym.show(h) if h else None})
+
+
+def key_toggle_helper(f, roles, w, body, leaves):
+    """w is private to the module that defines the position state, everything it XORs into the hash besides keys comes
+    from its own parameters, and it is called only from methods of the state type"""
+    import re as _re
+    from ..facts import callee_name
+    ity = roles.inner_ty
+    own_module = ity.rsplit("::", 1)[0].split("::", 1)[-1]
+    fn = f.fns.get(w) or {}
+    m_ = _re.match(r"Restricted\(DefId\([^~]*~ [^:]*::(.*)\)\)$", fn.get("vis", ""))
+    if not (m_ and m_.group(1) == own_module):
+        return False
+    params = {body.local_name(i) for i in range(2, body.argc + 1)}
+    for l in leaves:
+        if key_path(l) is not None:
+            continue
+        roots_ = sym.subterms(l, lambda y: y[0] in ("param", "obj", "call", "hv", "field") and y[0] != "field")
+        if not roots_ or any(not (r_[0] == "param" and r_[1] in params) for r_ in roots_):
+            return False
+    callers = [k for k, b in f.bodies.items() if any(callee_name(t) == w for _, t in b.calls())]
+    return bool(callers) and all(f.bodies[k].j.get("impl_self") == ity or f.bodies[k].kind == "Closure" and k.startswith(ity + "::") for k in callers)
 
 
 def is_empty_value(v):
